@@ -4,3 +4,4 @@ import Lemmas.ExecDir
 import Lemmas.Pending
 import Lemmas.Hash
 import Lemmas.Lex
+import Lemmas.Tx
